@@ -161,6 +161,16 @@ class Effects:
             stack.extend(self.bases_of(c))
         return None
 
+    def dispatch_impls(self, fi):
+        """Implementations registered on a functools.singledispatch function (same module)."""
+        if fi.cls is not None or not any(d.split('.')[-1] == 'singledispatch' for d in fi.decorators()):
+            return []
+        out = []
+        for other in self.repo.module(fi.module).functions.values():
+            if any(d.split('(')[0] == f'{fi.qualname}.register' for d in other.decorators()):
+                out.append(other)
+        return out
+
     def subclasses_of(self, ci: ClassInfo) -> list:
         if self._subclasses is None:
             direct: dict = {}
@@ -847,7 +857,11 @@ class FunctionAnalysis:
         kind = r[0]
         if kind == 'func':
             self.eff.resolved_calls += 1
-            return self.apply_summary(r[1], args, star, kwargs, e, self_av=None)
+            out = self.apply_summary(r[1], args, star, kwargs, e, self_av=None)
+            for impl in self.eff.dispatch_impls(r[1]):
+                # functools.singledispatch: any registered implementation may run
+                out = out.join(self.apply_summary(impl, args, star, kwargs, e, self_av=None))
+            return out
         if kind == 'class':
             self.eff.resolved_calls += 1
             return self.construct(r[1], args, kwargs, e)
